@@ -31,8 +31,10 @@ for pid in PROPS:
         level_claimed=dict(
             category="other",
             text=getattr(hm, "LEVEL_TEXT", "Bounded symbolic execution of the real curies source, SMT-decided per path: the "
-                         "property holds for every string value within the listed shapes (number of records, synonyms, "
-                         "operations); nothing is claimed outside them."),
+                         "property holds for every string value within the stated bounds and nothing is claimed outside them. "
+                         "Bounds: " + "; ".join(f"{k}: {v}" for k, v in hm.BOUNDS.items()) + ". Outside the claim: " +
+                         "; ".join(hm.OUTSIDE) + ". A counterexample is reported only after it was replayed on the real stack; "
+                         "solver unknowns, unmodelled constructs and budget overruns are INCONCLUSIVE (exit 2), never a pass."),
             design_ref=f"DESIGN.md section 5, {pid}"),
         level_note="Trusted base: z3 5.1.0 / cvc5 1.0.3, the AST rewrite and proxy classes (validated each run by replaying "
                    "path witnesses on the real stack), and the contract stubs named in the evidence (" +
